@@ -53,7 +53,7 @@ CHECKS = {
 }
 
 # properties whose proof modules are merged into lean/ and whose check passes on the clean tree
-READY = ["C01", "C02", "C04", "C06", "C07", "C08", "C09", "C18"]
+READY = ["C01", "C02", "C04", "C06", "C07", "C08", "C09", "C10", "C11", "C12", "C13", "C14", "C18", "C19", "C20"]
 
 CHECKS.update({
     "C04": dict(
@@ -95,6 +95,74 @@ CHECKS.update({
              "Model follows the code after fix 537a8d6.",
         technique="Lean 4 proof (state-machine invariant, induction over histories) + bitwise history-vs-fresh oracle",
         ref="DESIGN.md 7/C18"),
+})
+
+CHECKS.update({
+    "C10": dict(
+        text="Theorems on the GENERATED statement skeleton of main() (any step count, cadences, flags, uninterpreted "
+             "physics): all time-indexed datasets have as many records as the time axis; the time axis is exactly the "
+             "output steps plus the final step; every stored phase space belongs to the record of its step; wake and CSR "
+             "records are those of the recorded profile; without renormalisation inside the loop every record's profile, "
+             "energy profile, population and moments are computed from the grid it describes - and with renormalisation "
+             "this is FALSE of the code (fresh_full_false, replayed on the program: known finding renorm-output). The "
+             "file oracle checks units, axes, projections, moments, intensity and the wake convolution on real runs.",
+        note="Unit factors, axes and dataset layout are decided by the file oracle (support), not by theorems. HDF5 append semantics assumed.",
+        technique="Lean 4 proof (invariants by induction over loop iterations of the translated main loop) + file-skeleton correspondence + file oracle",
+        ref="DESIGN.md 7/C10"),
+    "C11": dict(
+        text="Theorems: the last phase-space record of a run is its final grid labelled with the step count; split_run: a "
+             "steps, store, restart, b steps = a+b steps in one go for RenormalizeCharge<0 and static RF, for ALL a, b, "
+             "output settings; with renormalisation the full statement is false of the code (split_run_full_false). Oracle: "
+             "leg1+leg2 vs single run on the binary (bit-wise without renormalisation), chosen start records, unusable files.",
+        note="HDF5 read-back of stored bit patterns is an assumption (tested). With RenormalizeCharge >= 0 equality holds up to the start-up renormalisation factor (measured).",
+        technique="Lean 4 proof (state-machine refinement on the translated main loop) + binary-level oracle",
+        ref="DESIGN.md 7/C11"),
+    "C12": dict(
+        text="Theorems (non-interference): for ALL step counts and ALL observation settings (outstep, h5save, file or not, "
+             "tracks, cache contents) the physical state (step, grid, x-projection, RF queue) after k steps is the same; "
+             "the step is a function of the physical state; records common to two cadences are identical. Oracle: bit-wise "
+             "comparison of final phase spaces and common records across variants and repetitions of real runs.",
+        note="Determinism of the numerics (FFTW with fixed wisdom) is observed, not proved.",
+        technique="Lean 4 proof (frame/non-interference by induction over the translated main loop) + bit-wise binary oracle",
+        ref="DESIGN.md 7/C12"),
+    "C13": dict(
+        text="Theorems on the GENERATED save() rules and option table: only compatibility names are skipped; alpha0 is "
+             "replaced by 0 exactly when f_s != 0; every config-file option type has a save branch; full precision is "
+             "set; every command-line value option has a config-file twin; save writes exactly the token of every scalar "
+             "key and one line per entry of the vector key; re-parsing the saved lines yields the same token for every "
+             "handled scalar option (model of boost store/notify). Oracle: parse -> save -> parse on the real class, "
+             "getters compared bit-wise, incl. 8-9 digit values and several bunch currents.",
+        note="Number formatting/parsing round trip is a library fact (tested). Model after fixes 3df863c, cb9f10a, 7326215, 8c67dde.",
+        technique="Lean 4 proof (decide on the translated tables + finite-map reasoning) + translator + parse/save/parse correspondence",
+        ref="DESIGN.md 7/C13"),
+    "C14": dict(
+        text="Theorem: for EVERY interrupt point p (set-up, any statement boundary of the loop, output block, final block) "
+             "the run with a signal at p equals the uninterrupted run over some k <= laststep steps (finishes the step, one "
+             "final record, Aborted/Finished); records written before the final block are a prefix of the uninterrupted "
+             "run's; the final block adds exactly one record to every time-indexed dataset. Validation: SIGINT raised "
+             "through hook H1 at sampled (quick) / all (thorough) points of real runs, incl. second signals.",
+        note="Statement granularity; asynchronous delivery inside library calls covered by the one-store handler argument.",
+        technique="Lean 4 proof (small-step/large-step equivalence on the translated main loop) + hook-driven enumeration of interrupt points",
+        ref="DESIGN.md 7/C14"),
+    "C19": dict(
+        text="Theorems: the constructor overloads clang selects forward every argument to the like-named formal (generated "
+             "from the AST); zero amplitudes give entries (syncphase, 1) and the static kick for both RF models; entry i of "
+             "a pure phase modulation is syncphase + A sin(w i); for ANY interleaving of apply/flush the records handed "
+             "out are exactly the entries used, in order, none lost or duplicated; in main() /RFKicks ends with exactly "
+             "the first k queue entries for every cadence. Oracle: dynamic vs static map bit-wise, recorded entry vs "
+             "displacement field used, binary runs.",
+        note="PRNG draws are inputs. Model after fix c8b0bf4.",
+        technique="Lean 4 proof (decide on translated constructor calls, induction over operation sequences) + bitwise correspondence",
+        ref="DESIGN.md 7/C19"),
+    "C20": dict(
+        text="Theorems on a model of boost::program_options store/notify and the GENERATED option table and parse() skeleton: "
+             "precedence - for every key: command-line value, else config-file value, else value of its legacy alias, else "
+             "default; notify leaves each variable with the tokens of its (unique) option; unknown key / malformed value / "
+             "missing config file stop before anything is simulated; table well-formedness by decide. Correspondence: "
+             "random assignments over all sources against the real parse().",
+        note="boost semantics are modelled (validated by correspondence), lexical_cast not modelled. Model after fix 957f9ea.",
+        technique="Lean 4 proof (finite-map semantics of store/notify over the translated option table) + translator + correspondence",
+        ref="DESIGN.md 7/C20"),
 })
 
 PENDING = {
